@@ -3,10 +3,10 @@
 import json, os
 V = os.path.dirname(os.path.abspath(__file__))
 T = {
- "C01": ("hostile-workload runtime monitoring: panic hook + join() result in-process (overflow checks on), exit status/signal/stderr of debug and release CLI, canary rows; thorough adds Miri, ASan and valgrind memcheck runs of the same generator", "3 C01, 4"),
+ "C01": ("hostile-workload runtime monitoring: panic hook + join() result in-process (overflow checks on), exit status/signal/stderr of debug and release CLI, canary rows; quick adds valgrind memcheck runs of the release CLI, thorough adds AddressSanitizer(+LeakSanitizer) and ThreadSanitizer builds of harness+library repeating the hostile workload", "3 C01, 4"),
  "C02": ("runtime monitor: one-line reader runs on a preloaded table judged by a reference accept rule (digit count x DF x prefix grid, decoration differential)", "3 C02"),
  "C03": ("runtime monitor: reference CRC-24/AA address oracle on the table key set after each frame; all other rows bit-identical", "3 C03"),
- "C04": ("runtime monitor: differential subsequence (stream with vs without parity-damaged squitters) with reference syndrome oracle", "3 C04"),
+ "C04": ("runtime monitor: differential subsequence (stream with vs without parity-damaged squitters: 1-/2-bit, bursts, random, structured non-code-words) with reference syndrome oracle", "3 C04"),
  "C05": ("runtime monitor: exhaustive AC13/AC12 code sweep through the whole pipeline vs reference altitude decoder, four update contexts", "3 C05"),
  "C06": ("runtime monitor: exhaustive ID13 sweep through the pipeline vs reference squawk decoder; other formats must keep squawk", "3 C06"),
  "C07": ("runtime monitor: 6-bit character sweep + TC x CA grid vs reference codec, Comm-B gating states, CLI W column", "3 C07"),
@@ -15,8 +15,8 @@ T = {
  "C10": ("runtime monitor: lock-step Comm-B gating histories vs reference Doc 9871 encoders/decoders with weak/strong preconditions", "3 C10"),
  "C11": ("runtime monitor: lock-step histories checked after every prefix against a reference fold (Set/SetOrKeep/Keep/Any), cross-talk and idempotence", "3 C11"),
  "C12": ("runtime monitor: schedules with shifted time stamps vs last-heard model; sweep bound; CLI LC column", "3 C12"),
- "C13": ("runtime monitor: differential subsequence with junk lines (file in-process and TCP through the CLI)", "3 C13"),
- "C14": ("runtime monitor: output of Planes::print / CLI refresh blocks parsed and compared with a reference renderer", "3 C14"),
+ "C13": ("runtime monitor: differential subsequence with junk lines (file in-process; expired preloaded rows so that every sweep position matters; TCP source through the CLI against a loopback server)", "3 C13"),
+ "C14": ("runtime monitor: output of Planes::print / CLI refresh blocks parsed and compared with a reference renderer; marker non-interference between columns", "3 C14"),
  "C15": ("runtime monitor: printed ICAO column is a permutation, key of last recognised -o letter monotone", "3 C15"),
  "C16": ("runtime monitor: differential filtered stream vs pre-filtered stream; CLI counter line vs reference counts", "3 C16"),
  "C17": ("runtime monitor: exhaustive 2^24 address sweep through both constructors vs reference allocation table", "3 C17"),
@@ -56,7 +56,7 @@ m = {
  "engines": [{"name": "sqmon", "path": "/verif/harness", "serves_properties": sorted(c["property_id"] for c in checks),
               "kind_free_text": "Rust harness linking the real crate (path dependency on /repo), reference model, workload generators and monitors; driven and aggregated by /verif/check (Python); CLI-level monitors run the built binary as a sub-process"}],
  "checks": checks,
- "notes": "All checks rebuild harness and CLI from /repo's working tree (VERIF_REPO overrides for validating against mutated copies). Exit 2 + INCONCLUSIVE line = harness could not decide (never a VIOLATION). known_findings.json lists genuine defects (2 known, 12 fixed).",
+ "notes": "All checks rebuild harness and CLI from /repo's working tree (VERIF_REPO overrides for validating against mutated copies). Exit 2 + INCONCLUSIVE line = harness could not decide (never a VIOLATION). known_findings.json lists genuine defects (2 known, 12 fixed); seeded/ holds 37 confirmed property-breaking changes used to validate the monitors (seeded/REGRESSION.txt).",
  "not_applicable": na,
 }
 json.dump(m, open(os.path.join(V, "MANIFEST.json"), "w"), indent=1)
